@@ -97,6 +97,7 @@ class GenOpts:
     multi_id_names: float = 0.0     # declaration names with 2 identifiers (parser only)
     name_families: float = 0.15     # names that extend/truncate existing names textually
     mc_decoys: str = 'random'       # random | both | literal: decoy events called Claim/Release
+    mc_shape: Optional[int] = None  # parameter directions of the claim/release events (cycled)
 
 
 @dataclass
@@ -304,8 +305,24 @@ class ModelGen:
         reply = self._ref(fqn, enum_fqn, 'enums')
         if reply is None:
             reply = M.Ref(list(enum_fqn), '.'.join(enum_fqn))
-        events = [M.Event(claim, 'in', reply, formals('in')),
-                  M.Event(release, 'in', M.Ref(['void']), formals('in'))]
+
+        def planned(directions):
+            out, ftaken = [], set()
+            for fdir in directions:
+                if not self.externs:
+                    break
+                xt, _x = rng.choice(self.externs)
+                ref = self._ref(fqn, xt, 'externs')
+                if ref is not None:
+                    out.append(M.Formal(fresh(rng, ftaken, rng.choice(['single', 'snake', 'digit'])),
+                                        ref, fdir))
+            return out
+
+        plans = [(['in'], ['in']), (['inout'], ['out']), (['out', 'in'], ['in', 'inout']),
+                 ([], []), (['in', 'out', 'inout'], ['in', 'in']), None]
+        plan = plans[self.o.mc_shape % len(plans)] if self.o.mc_shape is not None else None
+        events = [M.Event(claim, 'in', reply, planned(plan[0]) if plan else formals('in')),
+                  M.Event(release, 'in', M.Ref(['void']), planned(plan[1]) if plan else formals('in'))]
         if decoys and not literal:
             if rng.random() < 0.5 or self.o.mc_decoys == 'both':
                 events.append(M.Event('Claim', 'in', M.Ref(list(reply.ids), reply.target),
